@@ -1031,6 +1031,24 @@ func checkC14(c *Check, p *Program) {
 		_, isDefer := op.Instr.(*ssa.Defer)
 		c.Decide(isDefer && op.Fn == a.serve && !inAnyLoop(op.Instr.Block()) && op.Instr.Block() == a.serve.Blocks[0], "C14.Q7", FuncName(op.Fn)+" closes Inbound when serve ends", p.InstrPos(op.Instr), "deferred at serve's entry", "Router.inbound is not closed by a defer at the entry of serve")
 	}
+	// a send on Router.inbound outside the serve goroutine can meet the closed channel: its panic must be
+	// recovered by a deferred function that calls recover() itself (`defer recover()` recovers nothing)
+	nParked := 0
+	for _, op := range ix.opsOnField(a.inbound, "send", "sel-send") {
+		roots := cg.rootsOf(op.Fn)
+		inCloser := len(roots) > 0
+		for _, r := range roots {
+			if !(r.Kind == "go" && r.Fn == a.serve) {
+				inCloser = false
+			}
+		}
+		if inCloser {
+			continue
+		}
+		nParked++
+		c.Decide(hasDeferredRecover(op.Fn), "C14.Q7", FuncName(op.Fn)+" send outside serve recovers from the closed channel", p.InstrPos(op.Instr), "deferred function literal calling recover()", "this send can execute after serve closed Router.inbound and nothing recovers the 'send on closed channel' panic: closing the router crashes the process")
+	}
+	_ = nParked
 	for _, r := range returnsOf(a.serve) {
 		// serve returns only after the socket's channel was closed: every return is behind the !ok edge of the range receive
 		okR := false
